@@ -132,6 +132,12 @@ func runC08(p *Program, e *Engine, r *Result, tier string) {
 // c08PathStores: every store to a watch's path field is built from the caller's spelling only.
 func c08PathStores(a *An, tf *tableFacts, roots []*ssa.Function) {
 	ro := a.Ro
+	translatorNames := map[string]bool{}
+	for _, fn := range a.P.srcFuncs(a.P.Main) {
+		if res := fn.Signature.Results(); res.Len() == 1 && types.Identical(res.At(0).Type(), ro.Event) {
+			translatorNames[shortFn(fn)] = true
+		}
+	}
 	_, pathF := tf.watchFields()
 	seen := map[string]bool{}
 	for _, root := range roots {
@@ -173,8 +179,10 @@ func c08PathStores(a *An, tf *tableFacts, roots []*ssa.Function) {
 					break
 				}
 				name := rest[:j]
-				switch name {
-				case "path/filepath.Clean", "len":
+				switch {
+				case name == "path/filepath.Clean" || name == "len":
+				case translatorNames[name]:
+					// the Name of an event built by the translator: C08.1 shows it is the name the handler passed in
 				default:
 					bad = append(bad, name)
 				}
@@ -201,12 +209,9 @@ var trimIdioms = map[string]bool{"strings.TrimRight": true, "strings.TrimSuffix"
 
 func c08EntryName(a *An, df *DecodeFacts, hv []*Visit, hctx *Ctx) {
 	size := sizeofRecord(a, df)
-	// string conversions of byte slices inside the handler
+	// string conversions of byte slices anywhere below the handler (helpers are inlined)
 	n := 0
 	for _, v := range hv {
-		if v.Ctx != hctx {
-			continue
-		}
 		cv, ok := v.Instr.(*ssa.Convert)
 		if !ok || !isString(cv.Type()) {
 			continue
@@ -215,7 +220,9 @@ func c08EntryName(a *An, df *DecodeFacts, hv []*Visit, hctx *Ctx) {
 			continue
 		}
 		n++
-		// (a) the string goes only into a trimming idiom
+		vc := v.Ctx
+		// (a) NUL padding removed: the string goes only into a trimming call, or the slice converted is already cut at the
+		// end of the trailing NULs by a loop comparing its bytes with 0
 		trimOK := true
 		var uses []string
 		if refs := cv.Referrers(); refs != nil {
@@ -239,8 +246,14 @@ func c08EntryName(a *An, df *DecodeFacts, hv []*Visit, hctx *Ctx) {
 				case *ssa.DebugRef:
 				default:
 					trimOK = false
-					uses = append(uses, rr.String())
+					uses = append(uses, "used untrimmed")
 				}
+			}
+		}
+		if !trimOK || len(uses) == 0 {
+			if sl, isSl := cv.X.(*ssa.Slice); isSl && sl.High != nil && nulScanLoop(cv.Parent(), sl) {
+				trimOK = true
+				uses = []string{"slice bound computed by a loop that skips trailing zero bytes"}
 			}
 		}
 		a.R.ob("C08.3", "entry:nul-trim", "the kernel's NUL padding is removed before the entry name is used", a.P.instrPos(cv), trimOK && len(uses) > 0, "uses of the raw string: "+fmtList(uses))
@@ -248,11 +261,14 @@ func c08EntryName(a *An, df *DecodeFacts, hv []*Visit, hctx *Ctx) {
 		var bounds []ssa.Value
 		cur := cv.X
 		var idx *ssa.IndexAddr
-		for i := 0; i < 8 && cur != nil; i++ {
+		for i := 0; i < 10 && cur != nil; i++ {
 			switch x := cur.(type) {
 			case *ssa.Slice:
 				if x.High != nil {
 					bounds = append(bounds, x.High)
+				}
+				if x.Max != nil {
+					bounds = append(bounds, x.Max)
 				}
 				cur = x.X
 			case *ssa.Convert:
@@ -269,22 +285,41 @@ func c08EntryName(a *An, df *DecodeFacts, hv []*Visit, hctx *Ctx) {
 		startOK, lenOK, bufOK := false, false, false
 		desc := ""
 		if idx != nil {
-			lf := lin(idx.Index)
-			// index = offset(param) + size
-			if lf.ok && lf.k == size && len(lf.terms) == 1 {
-				for t, c := range lf.terms {
-					rv, rc := hctx.resolve(stripConv(t))
-					if c == 1 && rc.Parent == nil && rv == ssa.Value(df.OffsetPhi) {
-						startOK = true
+			// index = offset + size, where offset resolves (through helper parameters) to the reader's offset variable
+			var k int64
+			nTerms := 0
+			okLin := true
+			var collect func(v ssa.Value, c *Ctx)
+			collect = func(v ssa.Value, c *Ctx) {
+				lf := lin(v)
+				if !lf.ok {
+					okLin = false
+					return
+				}
+				k += lf.k
+				for t, coef := range lf.terms {
+					if coef != 1 {
+						okLin = false
+						continue
 					}
+					rv, rc := c.resolve(stripConv(t))
+					if rc.Parent == nil && rv == ssa.Value(df.OffsetPhi) {
+						nTerms++
+						continue
+					}
+					if rv != t || rc != c {
+						collect(rv, rc)
+						continue
+					}
+					okLin = false
 				}
 			}
-			desc = "start index " + stripIDs(hctx.path(idx.Index))
-			// buffer: (a copy of) the array the reader's record pointer indexes
-			base, bctx := hctx.resolve(idx.X)
+			collect(idx.Index, vc)
+			startOK = okLin && nTerms == 1 && k == size
+			desc = "start index " + stripIDs(vc.path(idx.Index))
+			base, bctx := vc.resolve(idx.X)
 			bp := stripIDs(bctx.path(base))
 			rb := stripIDs(a.E.rootCtx(df.Reader).path(df.RecordIdx.X))
-			// the handler may copy the array (bb := *buf): follow one load of a pointer parameter bound to the reader's buffer
 			if al, isAl := base.(*ssa.Alloc); isAl {
 				if sts := cellStores(al); len(sts) == 1 {
 					bp = stripIDs(bctx.path(sts[0].Val))
@@ -296,13 +331,15 @@ func c08EntryName(a *An, df *DecodeFacts, hv []*Visit, hctx *Ctx) {
 			desc += "; buffer " + bp + " (reader's buffer " + rb + ")"
 		}
 		for _, b := range bounds {
-			rv, _ := hctx.resolve(stripConv(b))
-			// Len of this record: load of field Len through the handler's record parameter
-			if u, ok := rv.(*ssa.UnOp); ok && u.Op == token.MUL {
-				if fa, ok := u.X.(*ssa.FieldAddr); ok && fieldName(fa.X.Type(), fa.Field) == "Len" {
-					pv, pc := hctx.resolve(fa.X)
-					if pc.Parent == nil && pv == df.RecordConv {
-						lenOK = true
+			// the bound is (derived from) this record's Len
+			for _, e := range valueEdges(vc, b, dnfTrue()) {
+				rv := stripConv(e.V)
+				if u, ok := rv.(*ssa.UnOp); ok && u.Op == token.MUL {
+					if fa, ok := u.X.(*ssa.FieldAddr); ok && fieldName(fa.X.Type(), fa.Field) == "Len" {
+						pv, pc := e.Ctx.resolve(fa.X)
+						if pc.Parent == nil && pv == df.RecordConv {
+							lenOK = true
+						}
 					}
 				}
 			}
@@ -311,6 +348,34 @@ func c08EntryName(a *An, df *DecodeFacts, hv []*Visit, hctx *Ctx) {
 			startOK && lenOK && bufOK, sprintf("start=offset+%d: %v; bounded by this record's Len: %v; same buffer: %v; %s", size, startOK, lenOK, bufOK, desc))
 	}
 	if n == 0 {
-		a.R.ob("C08.3", "entry:bytes", "the entry name is cut from the kernel buffer inside the handler", a.P.pos(df.Handler.Pos()), false, "no conversion of a byte slice to string found in the handler (unrecognised idiom)")
+		a.R.ob("C08.3", "entry:bytes", "the entry name is cut from the kernel buffer inside the handler", a.P.pos(df.Handler.Pos()), false, "no conversion of a byte slice to string found below the handler (unrecognised idiom)")
 	}
+	_ = hctx
+}
+
+// nulScanLoop: the high bound of sl is a loop variable of a loop in fn that tests bytes of the same slice against 0.
+func nulScanLoop(fn *ssa.Function, sl *ssa.Slice) bool {
+	if _, isPhi := stripConv(sl.High).(*ssa.Phi); !isPhi {
+		return false
+	}
+	for _, b := range fn.Blocks {
+		for _, in := range b.Instrs {
+			bo, ok := in.(*ssa.BinOp)
+			if !ok || (bo.Op != token.EQL && bo.Op != token.NEQ) {
+				continue
+			}
+			for _, pair := range [][2]ssa.Value{{bo.X, bo.Y}, {bo.Y, bo.X}} {
+				k, isK := constUint(pair[1])
+				if !isK || k != 0 {
+					continue
+				}
+				if ld, isLd := stripConv(pair[0]).(*ssa.UnOp); isLd && ld.Op == token.MUL {
+					if ia, isIA := ld.X.(*ssa.IndexAddr); isIA && ia.X == sl.X {
+						return true
+					}
+				}
+			}
+		}
+	}
+	return false
 }
